@@ -166,6 +166,35 @@ func cmdCheck(args []string) {
 		}
 	}
 	v.dischargeAll(obls, work, timeout, all, 16)
+	// second chance: an obligation no solver decided within the budget is tried again alone-ish (fewer
+	// workers, three times the budget), so that machine load does not turn a slow proof into an alarm.
+	// "sat" answers and obligations suspended by an open known finding are not retried.
+	var again []*Obligation
+	for _, o := range obls {
+		if o.IsCover || o.Result != "unknown" {
+			continue
+		}
+		susp := false
+		for _, k := range known.Findings {
+			if k.Status == "open" && k.Property == *prop && k.Obligation == baseName(o.Name) {
+				susp = true
+			}
+		}
+		if !susp {
+			again = append(again, o)
+		}
+	}
+	retried := len(again)
+	if retried > 0 && retried <= 64 {
+		for _, o := range again {
+			o.FirstTry = o.Output
+			o.Result, o.Solver, o.Output = "", "", ""
+		}
+		v.dischargeAll(again, work, 3*timeout, false, 6)
+		for _, o := range again {
+			o.Output = "retried with 3x budget after: " + o.FirstTry + " || " + o.Output
+		}
+	}
 
 	// classify
 	byFn := map[string]*fnReport{}
@@ -317,7 +346,7 @@ func cmdCheck(args []string) {
 			"functions_under_contract": reports, "covers_checked": covers,
 			"suspended_by_known_findings": susp, "failed": failedNames,
 			"discharged_by_solver": bySolver, "slowest_ms": slowest, "slowest_obligation": slowestName,
-			"per_obligation_timeout_ms": timeout, "all_solvers_cross_checked": all,
+			"per_obligation_timeout_ms": timeout, "all_solvers_cross_checked": all, "obligations_retried_with_3x_budget": retried,
 		},
 		"assumptions": assumptions,
 		"wall_s":      time.Since(t0).Seconds(),
@@ -341,7 +370,7 @@ func writeEngineFailure(verif, prop, tier string, seed int, msg string, t0 time.
 	fmt.Printf("VIOLATION property=%s replay=%s obligation=engine/load no-failing-input-found\n", prop, rp)
 	ev := map[string]interface{}{"property_id": prop, "tier": tier, "seed": seed, "level": "proof",
 		"coverage": map[string]interface{}{"obligations": 1, "discharged": 0, "checker_cmd": "sodvc check", "trusted_base": []string{}, "samples": []interface{}{msg}},
-		"wall_s": time.Since(t0).Seconds(), "violations": 1}
+		"wall_s":   time.Since(t0).Seconds(), "violations": 1}
 	os.MkdirAll(filepath.Join(verif, "evidence"), 0755)
 	b, _ = json.MarshalIndent(ev, "", " ")
 	os.WriteFile(filepath.Join(verif, "evidence", prop+".json"), b, 0644)
